@@ -91,6 +91,29 @@ def async_probe(ctx):
             else:
                 ctx.traces += 1
     ctx.correspondence('async adapters: real Stream::poll_next (tokio, async-std) behaves as C11_adapter_* state, 3 situations x 2 adapters', not bad, bad)
+    # signal-hook-mio (mio 1.0): the instance registered as an event source of a real Poll
+    mio = {}
+    for l in out.split('\n'):
+        t = l.split()
+        if len(t) == 4 and t[0] == 'mio':
+            mio[t[1]] = dict(x.split('=', 1) for x in t[2:])
+    mexpect = {'M1': ('1', '[10]'), 'M2': ('0', '[]'), 'M3': ('1', '[10]'), 'M4': ('1', '[12]')}
+    mbad = []
+    for sit, (ev, pend) in mexpect.items():
+        ctx.evaluations += 1
+        r = mio.get(sit)
+        if r is None:
+            mbad.append('mio %s: no result (rc=%d)' % (sit, rc))
+        elif sit != 'M2' and r['events'] == '0':
+            ctx.violation({'monitor': 'adapter-stranded', 'adapter': 'mio', 'situation': sit},
+                          'mio adapter: a delivery after registration with the Poll produced no readable event within 2 s (the poller stays asleep)',
+                          {'adapter': 'mio', 'situation': sit, 'row': r})
+        elif (r['events'], r['pending']) != (ev, pend):
+            mbad.append('mio %s: %s events, pending() gave %s; expected %s and %s' % (sit, r['events'], r['pending'], ev, pend))
+        else:
+            ctx.traces += 1
+    ctx.correspondence('mio adapter: real mio::Poll with the instance as event source, 4 situations (wake after raise, none without, re-arm after drain, added signal)', not mbad, mbad)
+    rows.update({('mio', k): v for k, v in mio.items()})
     ctx.coverage['async_adapter_probe'] = {'%s/%s' % k: v for k, v in rows.items()}
 
 
